@@ -229,12 +229,14 @@ type LockAnalysis struct {
 	// Imbalance records functions whose returns disagree on the lock-set.
 	Imbalance map[*ssa.Function]string
 	inPkg     map[*ssa.Function]bool
+	// dead: unexported functions with no caller at all (never executed; not checked)
+	dead map[*ssa.Function]bool
 }
 
 // NewLockAnalysis analyses the functions of the given packages together.
 func NewLockAnalysis(p *Prog, rels ...string) *LockAnalysis {
 	la := &LockAnalysis{P: p, entry: map[*ssa.Function]LockSet{}, at: map[ssa.Instruction]LockSet{},
-		sum: map[*ssa.Function]*fnSummary{}, Imbalance: map[*ssa.Function]string{}, inPkg: map[*ssa.Function]bool{}}
+		sum: map[*ssa.Function]*fnSummary{}, Imbalance: map[*ssa.Function]string{}, inPkg: map[*ssa.Function]bool{}, dead: map[*ssa.Function]bool{}}
 	for _, rel := range rels {
 		la.Funcs = append(la.Funcs, p.PkgFuncs(rel)...)
 	}
@@ -538,6 +540,8 @@ func (la *LockAnalysis) updateEntries() bool {
 	changed := false
 	for _, f := range la.Funcs {
 		a := accs[f]
+		la.dead[f] = (a == nil || (a.sites == 0 && !a.bad)) && f.Parent() == nil && f.Object() != nil &&
+			!f.Object().Exported() && !isInitFunc(f) && f.Name() != "main" && !mayBeInvoked(f)
 		var ns LockSet
 		switch {
 		case a == nil || a.bad || a.sites == 0:
@@ -553,6 +557,32 @@ func (la *LockAnalysis) updateEntries() bool {
 		}
 	}
 	return changed
+}
+
+// mayBeInvoked: f is a method whose name occurs in some interface declared in
+// its package (it may be called through that interface without a static call site).
+func mayBeInvoked(f *ssa.Function) bool {
+	if f.Signature.Recv() == nil || f.Pkg == nil {
+		return false
+	}
+	scope := f.Pkg.Pkg.Scope()
+	for _, n := range scope.Names() {
+		tn, ok := scope.Lookup(n).(*types.TypeName)
+		if !ok {
+			continue
+		}
+		it, ok := tn.Type().Underlying().(*types.Interface)
+		if !ok {
+			continue
+		}
+		for i := 0; i < it.NumMethods(); i++ {
+			if it.Method(i).Name() == f.Name() {
+				return true
+			}
+		}
+	}
+	// struct fields / parameters of interface type declared inline are rare here; be conservative for exported names
+	return f.Object() != nil && f.Object().Exported()
 }
 
 func isMethodOfUnexported(f *ssa.Function) bool {
@@ -602,6 +632,9 @@ func (la *LockAnalysis) CheckGuards(guards []Guard, globals []GlobalGuard, exemp
 	var out []Access
 	for _, f := range la.Funcs {
 		if _, ok := exempt[FuncName(f)]; ok {
+			continue
+		}
+		if la.dead[f] {
 			continue
 		}
 		for _, b := range f.Blocks {
@@ -761,6 +794,9 @@ func (la *LockAnalysis) CheckCallGuards(cgs []CallGuard, exempt map[string]strin
 	var out []Access
 	for _, f := range la.Funcs {
 		if _, ok := exempt[FuncName(f)]; ok {
+			continue
+		}
+		if la.dead[f] {
 			continue
 		}
 		for _, b := range f.Blocks {
